@@ -21,6 +21,8 @@ def tasks(tier, params):
     out.append(('attr.dup', {'part': 'dup'}))
     for n in (0, 1, 2, 3):
         out.append(('long.%d' % n, {'part': 'long', 'n': n}))
+    if params.get('part_only') == 'attr':
+        out = [o for o in out if o[0].startswith('attr.')]
     return out
 
 
